@@ -266,7 +266,17 @@ class World:
 
 
 def observe(decl, case, fam, cid):
-    """Build one case on a fresh Environment and project what the library answers."""
+    """Build one case on a fresh Environment and project what the library answers.
+
+    A time-out is only recorded when it repeats with twice the limit (a construction takes
+    milliseconds; a single time-out on a starved machine is not an observation of the library)."""
+    rec = _observe(decl, case, fam, cid, LIMIT)
+    if rec["exc"] == "Timeout":
+        rec = _observe(decl, case, fam, cid, 2 * LIMIT)
+    return rec
+
+
+def _observe(decl, case, fam, cid, limit):
     rec = {
         "fam": fam,
         "id": cid,
@@ -282,7 +292,7 @@ def observe(decl, case, fam, cid):
         "ts": [],
     }
     try:
-        with time_limit(LIMIT):
+        with time_limit(limit):
             w = World(decl)
             if fam == "eq":
                 # operands first (always well-typed), then the construction under observation
@@ -461,13 +471,21 @@ CORRUPTIONS = [
 ]
 
 
-def corruption_check(ctx, obs):
-    """vacuity guard: corrupting one recorded field must make the judge reject"""
+def corruption_check(ctx, obs, failing=()):
+    """vacuity guard: corrupting one recorded field of an observation the judge accepts must make it reject"""
     batch, expect = [], {}
     nid = 0
+    failing = set(failing)
+    skipped = []
     for label, fam, pick, mut, clause in CORRUPTIONS:
-        cands = [o for o in obs if o["fam"] == fam and pick(o)]
+        allc = [o for o in obs if o["fam"] == fam and pick(o)]
+        cands = [o for o in allc if o["id"] not in failing]
+        if fam == "eq":
+            cands = [o for o in cands if not any(m["id"] in failing for m in obs if m["fam"] == "eq" and m["i"] == o["j"] and m["j"] == o["i"])]
         if not cands:
+            if allc:  # the implementation under test already violates every candidate record
+                skipped.append(label)
+                continue
             raise MachineryError("corruption check: no record for '%s'" % label)
         todo = [cands[0]]
         if fam == "eq":
@@ -492,6 +510,8 @@ def corruption_check(ctx, obs):
     if missed:
         raise MachineryError("corruption check: the judge accepts %r" % (missed,))
     ctx.notes["corruptions_rejected"] = len(set(l for l, _ in expect.values()))
+    if skipped:
+        ctx.notes["corruptions_skipped(no clean record)"] = skipped
 
 
 def run(ctx):
@@ -534,7 +554,7 @@ def run(ctx):
     ctx.cov["unspecified"] += unspec
     report(ctx, fails, byid)
     ctx.notes["t_judge_s"] = round(time.time() - t0, 1)
-    corruption_check(ctx, obs)
+    corruption_check(ctx, obs, failing=[f["id"] for f in fails])
     nontrivial = sum(1 for o in obs if o["fam"] in ("num", "big") and o["e"]["args"]) + sum(1 for o in obs if o["fam"] == "eq")
     ctx.cov["distinct_nontrivial"] = nontrivial
     per = {}
